@@ -570,11 +570,23 @@ impl<P: sw::SWCurveConfig> Sem for sw::Projective<P> {
             p
         }
     }
+    // compared and judged on the raw Jacobian coordinates (X/Z^2, Y/Z^3), not through the
+    // library's own normalisation, which is part of what serialization exercises
     fn same(&self, o: &Self) -> bool {
-        self.into_affine().same(&o.into_affine())
+        let (a, b) = (self, o);
+        if a.z.is_zero() || b.z.is_zero() {
+            return a.z.is_zero() && b.z.is_zero();
+        }
+        let (az2, bz2) = (a.z.square(), b.z.square());
+        a.x * bz2 == b.x * az2 && a.y * bz2 * b.z == b.y * az2 * a.z
     }
     fn ref_valid(&self, v: bool) -> bool {
-        self.into_affine().ref_valid(v)
+        if !v || self.z.is_zero() {
+            return true;
+        }
+        let zi = self.z.inverse().unwrap();
+        let zi2 = zi.square();
+        ref_sw_valid::<P>(&(self.x * zi2), &(self.y * zi2 * zi))
     }
     std_io!();
 }
@@ -915,11 +927,18 @@ impl<P: te::TECurveConfig> Sem for te::Projective<P> {
             p
         }
     }
+    // compared and judged on the raw projective coordinates (X/Z, Y/Z)
     fn same(&self, o: &Self) -> bool {
-        self.into_affine().same(&o.into_affine())
+        self.x * o.z == o.x * self.z && self.y * o.z == o.y * self.z
     }
     fn ref_valid(&self, v: bool) -> bool {
-        self.into_affine().ref_valid(v)
+        if !v {
+            return true;
+        }
+        match self.z.inverse() {
+            Some(zi) => te::Affine::<P>::new_unchecked(self.x * zi, self.y * zi).ref_valid(v),
+            None => false,
+        }
     }
     std_io!();
 }
